@@ -13,7 +13,7 @@ import re
 from vf import evalrun, ir_eval
 from vf.core import MachineryError, exc_record
 from vf.par import pmap
-from vf.checks.C13 import dec, _eval_attr
+from vf.checks.C13 import dec
 
 META = {
     "ready": True,
@@ -28,22 +28,60 @@ GROUPS = ("states", "der_states", "alg_states", "inputs", "parameters", "constan
 DELAY = re.compile(r"^(_pymoca_delay_\d+)\[(\d+)(?:,(\d+))?\]$")
 
 
-def _delay_env(model, env, expanded):
+def delay_shapes(m0):
+    """base name -> (rows, cols) of the delay input symbols of the UNEXPANDED model"""
+    out = {}
+    for name in m0.delay_states:
+        v = next(x for x in m0.inputs if x.symbol.name() == name)
+        out[name] = (v.symbol.size1(), v.symbol.size2())
+    return out
+
+
+def _delay_value(base, pos):
+    """value fed to element number pos (0-based, column-major) of delay input `base`"""
+    num = int(base.rsplit("_", 1)[1])
+    return [16 * num + pos + 1, 4]
+
+
+def _delay_env(model, env, shapes, expanded):
+    """give every delay input a value; element (i, j) of a delay symbol gets the same value before and after expansion"""
     e = dict(env)
-    for k, name in enumerate(model.delay_states):
-        if expanded:
-            m = DELAY.match(name)
-            if not m:
-                continue
-            base, i = m.group(1), int(m.group(2))
-            num = int(base.rsplit("_", 1)[1])
-            e[name] = {"sh": [], "d": [[4 * num + i, 4]]}
-        else:
-            v = next(x for x in model.inputs if x.symbol.name() == name)
-            n = v.symbol.size1() * v.symbol.size2()
-            num = int(name.rsplit("_", 1)[1])
-            e[name] = {"sh": [n] if n > 1 else [], "d": [[4 * num + j + 1, 4] for j in range(n)]}
+    if not expanded:
+        for name, (r, c) in shapes.items():
+            n = r * c
+            e[name] = {"sh": [n] if n > 1 else [], "d": [_delay_value(name, k) for k in range(n)]}      # 1-D list = column-major as is
+        return e
+    for v in model.inputs:
+        m = DELAY.match(v.symbol.name())
+        if m and m.group(1) in shapes:
+            r, c = shapes[m.group(1)]
+            i, j = int(m.group(2)), int(m.group(3) or 1)
+            e[v.symbol.name()] = {"sh": [], "d": [_delay_value(m.group(1), (j - 1) * r + (i - 1))]}
     return e
+
+
+def eval_in_env(x, env1):
+    """value of a Variable attribute (number, nested list, DM, or MX over ANY model symbols) -> list of floats, column-major"""
+    pm = ir_eval.pymoca()
+    ca, np = pm["ca"], pm["np"]
+    if isinstance(x, ca.MX):
+        syms = ca.symvar(x)
+        vals = []
+        for s_ in syms:
+            if s_.name() not in env1 or s_.numel() != 1:
+                raise KeyError("refers to %s, which is not a scalar variable of the expanded model" % s_.name())
+            vals.append(ir_eval.colmajor(env1[s_.name()])[0])
+        f = ca.Function("a", syms, [x])
+        out = f.call([ca.DM(v) for v in vals])[0]
+        return [float(v) for v in np.array(out).reshape(-1, order="F")]
+    if isinstance(x, (list, tuple)):
+        rows = [eval_in_env(e, env1) for e in x]
+        if rows and all(len(r) == 1 for r in rows):
+            return [r[0] for r in rows]
+        return [rows[i][j] for j in range(len(rows[0])) for i in range(len(rows))]
+    if isinstance(x, (ca.DM, np.ndarray)):
+        return [float(v) for v in np.array(x).reshape(-1, order="F")]
+    return [float(x)]
 
 
 def renamed_env(item, env):
@@ -110,7 +148,7 @@ def judge(item):
     if recs:
         return recs, "names"
     # 2. attribute elements (+ python type) at the parameter values of every point
-    psyms = ca.veccat(*[p.symbol for p in m1.parameters])
+    dshapes = delay_shapes(m0)
     types0 = {v.symbol.name(): v.python_type for g in GROUPS for v in getattr(m0, g)}
     flat_of = {}
     for nm in item["namemap"]:
@@ -118,10 +156,7 @@ def judge(item):
             flat_of[s] = nm["flat"]
     for k, p in enumerate(item["pts"]):
         e1 = renamed_env(item, p["env"])
-        try:
-            pvec = ca.DM([ir_eval.colmajor(e1[par.symbol.name()])[0] for par in m1.parameters]) if m1.parameters else ca.DM.zeros(0, 1)
-        except KeyError as e:
-            return [rec("expanded-names", "expanded parameter %s is not a scalar of the program" % e)], "names"
+        e1 = _delay_env(m1, e1, dshapes, True)
         for gi, g in enumerate(item["groups"]):
             if g == "der_states":
                 continue
@@ -133,7 +168,7 @@ def judge(item):
                 for ai, a in enumerate(item["attrs"]):
                     want = dec(exp["attrs"][k][ai])
                     try:
-                        got = _eval_attr(getattr(v, a), psyms, pvec, 1)
+                        got = eval_in_env(getattr(v, a), e1)
                         ok = len(got) == 1 and ir_eval.close(got[0], want)
                     except Exception as e:
                         got, ok = "not evaluable: %r (%s)" % (getattr(v, a), e), False
@@ -141,8 +176,8 @@ def judge(item):
                         recs.append(rec("expanded-attribute", "%s.%s = %s, the element of the array attribute is %s" % (exp["name"], a, got, want), sig="attr:" + a))
         # 3. residuals under the renaming, 4. delay arguments
         try:
-            a0 = ir_eval.fn_args(m0, _delay_env(m0, p["env"], False))
-            a1 = ir_eval.fn_args(m1, _delay_env(m1, e1, True))
+            a0 = ir_eval.fn_args(m0, _delay_env(m0, p["env"], dshapes, False))
+            a1 = ir_eval.fn_args(m1, e1)
         except ir_eval.UnknownVariable as e:
             recs.append(rec("expanded-names", "cannot evaluate: %s" % e, sig="inputs"))
             break
@@ -157,25 +192,37 @@ def judge(item):
                 if not any(r["sigdetail"] == nm_ for r in recs):
                     recs.append(rec("expanded-residual", "%s residual at point %d: expanded %s, unexpanded %s" % (nm_, p["t"], r1[:8], r0[:8]), sig=nm_))
         if m0.delay_states or m1.delay_states:
-            in1 = [v.symbol.name() for v in m1.inputs]
-            bad = [n for n in m1.delay_states if n not in in1 or not DELAY.match(n)]
-            if bad:
-                recs.append(rec("expanded-delay-states", "delay states %s are not expanded inputs" % bad, sig="delay-names"))
+            # every element of every delayed expression becomes one delay state = one expanded input, named with the
+            # subscripts of that element, paired with that element of the delayed expression and the same duration
+            in1 = [v.symbol.name() for v in m1.inputs if DELAY.match(v.symbol.name())]
+            want_names = []
+            for base, (r, c) in dshapes.items():
+                want_names += [(base, i, j) for i in range(1, r + 1) for j in range(1, c + 1)]
+            got_names = []
+            for n in m1.delay_states:
+                m = DELAY.match(n)
+                got_names.append((m.group(1), int(m.group(2)), int(m.group(3) or 1)) if m else (n, 0, 0))
+            if sorted(got_names) != sorted(want_names) or sorted(in1) != sorted(m1.delay_states):
+                if not any(r_["sigdetail"] == "delay-names" for r_ in recs):
+                    recs.append(rec("expanded-delay-states", "delay states %s, expanded delay inputs %s, elements of the delayed expressions %s" % (
+                        list(m1.delay_states), in1, ["%s[%d,%d]" % t for t in want_names]), sig="delay-names"))
             else:
                 try:
-                    d0 = ir_eval.call_vec(m0.delay_arguments_function, a0)      # [expr_1.., dur_1, expr_2.., dur_2, ...]
-                    d1 = ir_eval.call_vec(m1.delay_arguments_function, a1)      # [e, dur, e, dur, ...]
-                    want = []
+                    d0 = ir_eval.call_vec(m0.delay_arguments_function, a0)      # [expr_1 (column-major) .., dur_1, expr_2 .., dur_2, ...]
+                    d1 = ir_eval.call_vec(m1.delay_arguments_function, a1)      # [e, dur, e, dur, ...] in the order of m1.delay_states
+                    elem = {}
                     pos = 0
-                    for name in m0.delay_states:
-                        v = next(x for x in m0.inputs if x.symbol.name() == name)
-                        n = v.symbol.size1() * v.symbol.size2()
-                        ex, du = d0[pos:pos + n], d0[pos + n]
-                        pos += n + 1
-                        for x in ex:
-                            want += [x, du]
+                    for base in m0.delay_states:
+                        r, c = dshapes[base]
+                        for j in range(1, c + 1):
+                            for i in range(1, r + 1):
+                                elem[(base, i, j)] = (d0[pos + (j - 1) * r + (i - 1)], d0[pos + r * c])
+                        pos += r * c + 1
+                    want = [x for t in got_names for x in elem[t]]
                     if len(want) != len(d1) or not all(ir_eval.close(x, y) for x, y in zip(d1, want)):
-                        recs.append(rec("expanded-delay-arguments", "delay arguments %s, elements of the unexpanded ones %s" % (d1[:8], want[:8]), sig="delay-args"))
+                        if not any(r_["sigdetail"] == "delay-args" for r_ in recs):
+                            recs.append(rec("expanded-delay-arguments", "delay arguments (expression, duration) per delay state %s: %s, the elements of the unexpanded ones: %s" % (
+                                list(m1.delay_states)[:6], d1[:12], want[:12]), sig="delay-args"))
                 except Exception as e:
                     recs.append(rec("expanded-delay-arguments", "delay argument functions cannot be compared", e, sig="delay-args"))
     return recs, "ok"
